@@ -1686,3 +1686,58 @@ def ovmb_encoding_rules(ck, fb):
         ok = any(("size()" in s_ or "span.count" in s_) and "0" in s_ and (("==" in s_ and p_ is False) or ("!=" in s_ and p_ is True) or (">" in s_ and p_ is True)) for s_, p_, c_ in cn.facts(b))
         (ck.ok if ok else lambda r_, w_, t_: ck.violate(r_, w_, t_, "C06.emptyprop"))("C06.emptyprop", f.loc(x), "write_all_props serialises a property only under the fact that it has elements")
     ck.floor("prop_serialize_sites", len(ser), 1)
+
+
+WIDTH = {"bool": 1, "char": 8, "signed char": 8, "unsigned char": 8, "short": 16, "unsigned short": 16, "int": 32, "unsigned int": 32, "unsigned": 32,
+         "long": 64, "unsigned long": 64, "long long": 64, "unsigned long long": 64, "size_t": 64, "std::size_t": 64, "uint64_t": 64, "int64_t": 64, "uint32_t": 32, "int32_t": 32}
+
+
+def counter_width_rule(ck, fb):
+    """a loop that runs up to a bound read from the file counts with a type that can reach the bound"""
+    ck.rule("T.width", "in the text reader every counting loop `i < bound` uses a counter at least as wide as the bound: a 32 bit counter under a 64 bit bound read from the file wraps before it gets there, and the loop - which appends a handle per turn - never ends (a face line with valence 2^32, F72)")
+    n = 0
+    seen = set()
+    for f in fb.repo_fns():
+        if not f.has_cfg or "/FileManager/" not in f.file or f.where in seen:
+            continue
+        seen.add(f.where)
+        for hdr, body, backs in f.loops():
+            t = f.term(hdr)
+            c = unwrap(f.resolve(t.get("cond"))) if t and t.get("cond") else None
+            if not (isinstance(c, dict) and c.get("k") == "bin" and c.get("op") in ("<", "<=", "!=")):
+                continue
+            l, r = unwrap(strip_casts(c["l"])), unwrap(strip_casts(c["r"]))
+            if not (isinstance(l, dict) and l.get("k") == "var" and l.get("s") == "local"):
+                continue
+            lt = (l.get("t") or "").replace("const ", "")
+            rt = ((unwrap(c["r"]) or {}).get("t") or (r.get("t") if isinstance(r, dict) else "") or "").replace("const ", "")
+            # the declared type of the bound (before the usual arithmetic conversions)
+            if isinstance(r, dict) and r.get("k") == "var":
+                rt = (r.get("t") or rt).replace("const ", "")
+            if lt not in WIDTH or rt not in WIDTH:
+                continue
+            n += 1
+            ok = WIDTH[lt] >= WIDTH[rt]
+            (ck.ok if ok else lambda r_, w_, t_: ck.violate(r_, w_, t_, "T.width:%s:%s" % (f.pq, l.get("n"))))("T.width", f.loc(t), "%s: counter `%s %s` is at least as wide as its bound (%s)" % (f.pq.split("OpenVolumeMesh::")[-1][:50], lt, l.get("n"), rt))
+    ck.floor("counting_loops_in_text_reader", n, 6)
+
+
+def string_assign_rule(ck, fb):
+    """the text deserialiser of std::string assigns its target on every successful path (F73)"""
+    from .canon import Canon
+    ck.rule("S.assign", "deserialize(istream&, std::string&) writes its target on every path on which the stream is still good - for the length 0 as well: '0:' is the empty string, and skipping the assignment keeps whatever the property held before (readStream reads into a mesh whose persistent properties survive clear(false))")
+    fs = [f for f in fb.fns.values() if f.has_cfg and f.name == "deserialize" and "/FileManager/" in f.file and len(f.d["params"]) == 2 and "basic_string" in f.d["params"][1]["t"] and "vector" not in f.d["params"][1]["t"] and "map" not in f.d["params"][1]["t"]]
+    if len(fs) != 1:
+        raise AnalysisBroken("anchor vanished: deserialize(std::istream&, std::string&) (%d)" % len(fs))
+    f = fs[0]
+    cn = Canon(f)
+    writes = {b for b, i, x in f.nodes(("call",)) if b in f.reach() and x.get("r") is not None and cn.s(x["r"]) == "P1" and x.get("pn", "").split("::")[-1] in ("assign", "clear", "operator=", "resize", "erase")}
+    # two kinds of write sites are needed: one for a positive length and one that is reached with length 0 while the stream is good
+    def has(b, zero):
+        fs_ = [(st, p_) for st, p_, c_ in cn.facts(b)]
+        z = any(re.fullmatch(r"v\d+", st) and p_ is False or re.fullmatch(r"\(0\w* == v\d+\)|\(v\d+ == 0\w*\)", st) and p_ is True or re.fullmatch(r"!v\d+", st) and p_ is True for st, p_ in fs_)
+        pos = any(re.fullmatch(r"v\d+", st) and p_ is True or re.fullmatch(r"\(0\w* != v\d+\)|\(v\d+ != 0\w*\)|\(v\d+ > 0\w*\)", st) and p_ is True for st, p_ in fs_)
+        return z if zero else pos
+    uncond = any(not [1 for st, p_, c_ in cn.facts(b) if re.search(r"v\d+", st) and "operator bool" not in st] for b in writes)
+    free = not (uncond or (any(has(b, True) for b in writes) and any(has(b, False) for b in writes)))
+    (ck.ok if (writes and not free) else lambda r_, w_, t_: ck.violate(r_, w_, t_, "S.assign"))("S.assign", f.where, "deserialize(string) assigns or clears its target on every path with a good stream (%d write site(s)%s)" % (len(writes), "" if not free else "; a path with a good stream leaves the target untouched"))
